@@ -43,7 +43,7 @@ func DecodeStr(n int64) string {
 	if s, ok := strDecode[n]; ok {
 		return s
 	}
-	return fmt.Sprintf("v%d", n)
+	return fmt.Sprintf("str%d", n)
 }
 
 func (s Sort) String() string {
@@ -599,4 +599,16 @@ func StrToIntConst(s string) *Term {
 		return IntC(0)
 	}
 	return BigC(n)
+}
+
+// Lower is strings.ToLower: folded on constants, otherwise an uninterpreted function (integer string encoding) or
+// str.to_lower (real strings, cvc5 only).
+func Lower(t *Term) *Term {
+	if t.IsConst() {
+		return StrC(strings.ToLower(t.S))
+	}
+	if StrAsInt {
+		return App("uf_lower", String, t)
+	}
+	return App("str.to_lower", String, t)
 }
